@@ -72,6 +72,16 @@ def term_obligations(run, cls):
     return obls
 
 
+def class_set(run, name, in_source, covered, what):
+    """every class the contracts cover must exist (a missing one is a violation: the statement names it); a class the source has IN ADDITION has no
+    contract - nothing is claimed about it: undecided, never an alarm"""
+    missing, extra = sorted(set(covered) - set(in_source)), sorted(set(in_source) - set(covered))
+    if missing or not extra:
+        run.add(static(name, not missing, f"{what} in source {sorted(in_source)}; contracts cover {sorted(covered)}" + (f"; MISSING {missing}" if missing else "")))
+    else:
+        run.add(undecided(name, f"{what} without a contract: {extra} (new classes are outside what this check decides)"))
+
+
 def SAMPLED(cls):
     """fallback for a method that left the verified subset: the sampled native comparison with the closed form (a reproduced failure is a violation)"""
     return {"replay": {"module": "contracts.terms", "func": "replay_sampled", "kwargs": {"cls": cls, "what": "membership", "budget": 150}, "vars": {}}}
@@ -145,7 +155,7 @@ def build(run):
     # the shape terms of the source = subclasses of Term minus the structural ones
     structural = {"Activated", "Aggregated", "Linear", "Function"}
     shapes = [c for c in src.subclasses("term", "Term") if c not in structural]
-    run.add(static("term/classes", sorted(shapes) == C.SHAPES, f"shape terms in source {sorted(shapes)}; contracts cover {C.SHAPES}"))
+    class_set(run, "term/classes", shapes, C.SHAPES, "shape terms")
     for cls in C.TERMS:
         run.add(term_obligations(run, cls))
     import props.C03_discrete as D
